@@ -265,7 +265,7 @@ def history_templates(tier):
     T.append(dict(name='convertible ask matched after approval, then cancelled', cfg=dict(cfg_ask_fee=False, cfg_bid_fee=False),
                   steps=[S('CreateAsk', nfunds=1), S('ApproveAsk', nfunds=1), S('CreateBid', nfunds=1), S('ExecuteMatch'), S('CancelAsk')]))
     if tier == 'thorough':
-        T.append(dict(name='two fills of one fee-bearing bid, then cancel', cfg=dict(cfg_ask_fee=True, cfg_bid_fee=True),
+        T.append(dict(name='two fills of one fee-bearing bid, then cancel', cfg=dict(cfg_ask_fee=False, cfg_bid_fee=True),
                       steps=[S('CreateBid', nfunds=1, reqfee=True), S('CreateAsk', nfunds=1), S('ExecuteMatch'), S('ExecuteMatch'), S('CancelBid')]))
         T.append(dict(name='partial reject then match then expire of a bid', cfg=dict(cfg_ask_fee=False, cfg_bid_fee=True),
                       steps=[S('CreateBid', nfunds=1, reqfee=True), S('RejectBidSome'), S('CreateAsk', nfunds=1), S('ExecuteMatch'), S('ExpireBid')]))
@@ -295,7 +295,7 @@ def build_history(eng, bounds, hspec):
     return sc, ireq
 
 
-def run_history(sc, hspec, ireq, max_paths=4000):
+def run_history(sc, hspec, ireq, max_paths=12000):
     """depth-first over accepting paths; yields (list of (req, funds, path)) for every complete accepted history"""
     steps = hspec['steps']
 
